@@ -16,7 +16,7 @@ HARNESS_SRCS = ["harness/C01.cpp"]
 RULE = ("programs of 0-60 scripted tests, phases of 0-5 statements; every assert entry point (20 member functions of UtestShell incl. zero-length "
         "assertBinaryEqual, 19 C-interface functions, the CHECK_COMPARE macro) x operands that pass / fail x plain and NULL operand variants, each handed "
         "its own file:line (different from the TEST's and from every other statement's), in body position and the failing ones in setup and teardown, "
-        "all kinds in one test, runs of 39 tests failing through a different entry point each, and mixed into the random programs; every failure kind (C++-style check, C-style check, std exception, "
+        "all kinds in one test, runs of 40 tests failing through a different entry point each, and mixed into the random programs; every failure kind (C++-style check, C-style check, std exception, "
         "foreign exception, plugin-reported) x phase (setup, body, teardown, plugin pre/post) systematically, pairs of failing phases, "
         "runs of 12-25 consecutive failing tests of each kind x phase (beyond the 10 jump-buffer slots), interleaved with passing / ignored / "
         "filtered-out tests, repeat 1-4 (and -r0 = twice), -ri, through TestRegistry::runAllTests and through CommandLineTestRunner::runAllTestsMain; "
@@ -29,6 +29,10 @@ ASSUMPTIONS = ["rethrowExceptions off (-e / -ci) whenever a program can throw: D
                "fewer than 2^31 failures in total (the runner's size_t -> int return value would wrap; needs 2^32 failing checks)",
                "failing checks in constructors/destructors of tests and exceptions thrown by plugins are outside the quantifier",
                "longjmp and C++ unwinding obey their contract (the instrumented ASan/UBSan runs exhibit the real ones)",
+               "a check statement of a given kind is exhibited with fixed operands chosen by the harness from (kind, agree, line): plain values, and for the "
+               "string / binary / pointer functions also both-NULL (pass) and one-NULL (fail, either side) operands; the location handed over is "
+               "<file>:<line> of the statement, file = the test's own or another file; the C++ entry points are called with their default terminator "
+               "argument (the current NormalTestTerminator), the C-interface functions fix TestTerminatorWithoutExceptions themselves",
                "repetition-dependent behaviour is a function of the repetition number only: the scripted test reads its own static creation counter, "
                "the plugin its own call counters (equal to the runner's loop counter because every started test is created once per repetition); "
                "the number after -r is read as CommandLineArguments::setRepeatCount does (-r0 repeats twice)"]
@@ -203,7 +207,7 @@ def check_kinds(tier, rng):
     for kind in CK_NAMES:
         for agree in (1, 0):
             for k, line in enumerate(lines_for(kind)):
-                f = int(k == 1 and agree == 0)
+                f = 1 if not agree else int(k == 1)       # failing: in the other file (a wrong line AND a wrong file show); own file: setup family below
                 t = test(line=100, setup=[":c"], body=[":c", ck(kind, agree, line, f), ":c"], teardown=[":c"])
                 out.append(scn([PASS(), t, PASS()] if k == 0 else [t], **mode()))
     # the failing ones also in setup and teardown (teardown after a body that failed elsewhere, too)
@@ -219,12 +223,12 @@ def check_kinds(tier, rng):
         out.append(scn([test(line=100, setup=[":c"], body=allpass, teardown=[":c"])], **m))
         out.append(scn([test(line=100, setup=allpass[:20], body=allpass[20:] + [ck("bits", 0, 399)], teardown=allpass[5:9] + [ck("c_memcmp", 0, 401, 1)])], **m))
     # a long run (beyond the 10 jump-buffer slots) of tests failing through a different entry point each, C++ and C kinds interleaved
-    mixed = [k for pair in zip(CXX_KINDS, C_KINDS) for k in pair] + ["m_compare"]
+    mixed = [k for pair in zip(CXX_KINDS, C_KINDS) for k in pair] + CXX_KINDS[len(C_KINDS):] + ["m_compare"]
     for ph in range(3):
         tests = []
         for j, k in enumerate(mixed):
             p = [[":c"], [":c"], [":c"]]
-            p[ph] = [":c", ck(k, 0, 300 + j), ":c"]
+            p[ph] = [":c", ck(k, 0, 70001 + 3 * j, (j + ph) % 2), ":c"]      # lines beyond 16 bits: a truncated line number shows
             tests.append(test(line=100, setup=p[0], body=p[1], teardown=p[2]))
         out.append(scn(tests, cli=ph % 2, repeat=1))
     # zero-length comparisons and the uncounted macro in a test that depends on the repetition
@@ -686,7 +690,11 @@ LEVEL_TEXT = ("Machine-checked (Coq) theorems over an executable model of the te
               "registry loop, the six TestResult counters, the summary and the runner's repeat loop and return value. Proved for all programs, "
               "all mixes of failure kinds and both builds: lifecycle, failures recorded exactly once, jump depth and test context restored after "
               "every test (hence no slot overflow for any number of consecutive failing tests), true summary counts, OK iff no failure and "
-              "something ran or was ignored, exit value zero iff every repetition OK. PARTIAL: real longjmp/unwinding is exhibited only by the "
+              "something ran or was ignored, exit value zero iff every repetition OK; a check through any of the 40 assert entry points (20 UtestShell "
+              "member functions, 19 C-interface functions, the CHECK_COMPARE macro) adds exactly `counted kind agree` to the checks figure and, when it "
+              "fails, exactly one failure record at the location it was handed (C01_checkk_step, C01_checkk_wants, C01_uncounted_only_macro). PARTIAL: which operands make a given "
+              "assert function fail is not modelled here (the comparison functions are C03/C13/C14's business): a check statement carries `agree`; "
+              "real longjmp/unwinding is exhibited only by the "
               "instrumented runs (ASan/UBSan, builds with and without exceptions), which compare the extracted model with the real classes.")
 LEVEL_NOTE = ("Trusted: Coq kernel, extraction (ExtrOcamlBasic), harness (scripted UtestShells, text parser for failure locations and summary), "
               "generators, the jump-depth hook. Modelled not verified: the C++ itself; longjmp/exceptions by contract; rethrowExceptions=true with "
